@@ -20,3 +20,8 @@ claim("C13", "proof",
   "Sound whole-program effect analysis over every function reachable from the exported API: the property holds because of what the code does not contain (global state, writes to argument memory, output, nondeterministic constructs, shared results), which a static rule shows for all inputs, histories and schedules. obligations == discharged.",
   "Trusted base: go/ssa + call-graph soundness without reflect/unsafe/cgo (absence checked), the stdlib classification table in analyzer/effects.go, immutability/concurrency-safety of the stdlib objects used, the Go memory model.",
   "effect / taint / freshness analysis over the call graph", "DESIGN.md section 3 C13")
+
+claim("C03", "other",
+  "Complete enumeration of panic-capable SSA instructions in all functions reachable from the API; nil dereferences decided by a whole-program abstract interpreter (nil-ness, struct shapes derived from construction sites, trace partitioning, recursive summaries), bounds by linear entailment (Fourier-Motzkin) from dominating conditions, memory versioning, stdlib contracts and Houdini-inferred object invariants / cursor contracts; explicit panics, divisions, type assertions and stdlib callees enumerated against a no-panic table. Every obligation is discharged or reported with file:line and witness. Holds for all inputs because no input value is represented.",
+  "Not claimed: stack exhaustion by nesting depth, memory exhaustion (C14). Trusted: go/ssa lowering, the stdlib contract table (regexp, strings, sort, errors, fmt), Go semantics of nil slices/maps and of sort.Slice's index contract.",
+  "abstract interpretation (nil-ness/shapes) + linear-inequality entailment with inferred invariants", "DESIGN.md section 3 C03")
